@@ -347,7 +347,8 @@ def gen_assert(r, clients, counter, regen_biased=False):
                                    for j in range(n_files)], 'opts': opts}
         op['ref0'] = [cs['ref_text'] for cs in cases]
     elif what == 'binary':
-        n = r.randint(0, 40)
+        n = r.weighted([(12, r.randint(0, 40)), (1, r.randint(4090, 4200)),
+                        (1, r.randint(8000, 9000))])
         data = bytes(r.randrange(256) for _ in range(n))
         ref = bytearray(data)
         if r.chance(0.5) and ref:
